@@ -30,6 +30,11 @@ type C08Cfg struct {
 	NodeID    kit.Hex
 	// FaultyStore: the BEP 44 store is a backend that fails (plain or KRPC error) for some targets
 	FaultyStore bool
+	// Security: BEP 42 is enforced (senders' IDs are mostly not valid for their addresses; replies are
+	// owed all the same)
+	Security bool
+	// Blocklist: an IP blocklist is installed that covers the sources of the messages marked Blocked
+	Blocklist bool
 }
 
 type C08Msg struct {
@@ -58,6 +63,9 @@ type C08Msg struct {
 	// will use: 1 = with its address in the byte form the socket reports, 2 = in the other byte form of
 	// the same IPv4 address (4-byte <-> v4-mapped 16-byte).
 	Known int
+	// Blocked: the source's IP is on the node's blocklist: nothing is owed to it, and a query of the
+	// node's own to it (SameT) is refused before it reaches the socket
+	Blocked bool
 }
 
 type C08Sc struct {
@@ -113,6 +121,8 @@ func genC08(t *rapid.T) C08Sc {
 	}
 	sc.Cfg.NodeID = genBytesN(t, 20, "nodeid")
 	sc.Cfg.FaultyStore = uniformInt(t, 4, "faultystore") == 0
+	sc.Cfg.Security = uniformInt(t, 4, "security") == 0
+	sc.Cfg.Blocklist = uniformInt(t, 4, "blocklist") == 0
 	nb := rapid.IntRange(1, 4).Draw(t, "nbatches")
 	for b := 0; b < nb; b++ {
 		var batch []C08Msg
@@ -153,6 +163,7 @@ func genC08(t *rapid.T) C08Sc {
 				m.SenderID = make(kit.Hex, 20)
 			}
 			m.Known = []int{0, 0, 0, 1, 2}[uniformInt(t, 5, "known")]
+			m.Blocked = sc.Cfg.Blocklist && uniformInt(t, 4, "blocked") == 0
 			m.RO = rapid.IntRange(0, 5).Draw(t, "ro") == 0
 			m.PutSeq = rapid.Int64Range(0, 3).Draw(t, "putseq")
 			m.PutVal = rapid.IntRange(0, len(c13Values)-1).Draw(t, "putval")
@@ -253,10 +264,35 @@ func (m C08Msg) build(token string) []byte {
 }
 
 func runC08(sc C08Sc, c *kit.Case) *kit.Violation {
-	opts := SrvOpts{NodeID: arr20(sc.Cfg.NodeID), Passive: sc.Cfg.Passive, Hook: sc.Cfg.Hook, PeerStore: sc.Cfg.PeerStore}
+	opts := SrvOpts{NodeID: arr20(sc.Cfg.NodeID), Passive: sc.Cfg.Passive, Hook: sc.Cfg.Hook, PeerStore: sc.Cfg.PeerStore, Security: sc.Cfg.Security}
+	if sc.Cfg.Security {
+		c.Label("security-enforced")
+	}
 	if sc.Cfg.FaultyStore {
 		opts.Store = faultyStore{bep44.NewMemory()}
 		c.Label("faulty-store")
+	}
+	blockedIP := func(ip net.IP) bool {
+		for _, b := range sc.Batches {
+			for _, m := range b {
+				if m.Blocked && m.Src.NetIP().Equal(ip) {
+					return true
+				}
+			}
+		}
+		return false
+	}
+	if sc.Cfg.Blocklist {
+		bs := &blockSet{}
+		for _, b := range sc.Batches {
+			for _, m := range b {
+				if m.Blocked {
+					bs.ips = append(bs.ips, m.Src.NetIP())
+				}
+			}
+		}
+		opts.Blocklist = bs
+		c.Label("blocklist-installed")
 	}
 	sv := newSrv(opts)
 	defer sv.Close()
@@ -294,7 +330,7 @@ func runC08(sc C08Sc, c *kit.Case) *kit.Violation {
 		tokens := map[int]string{}
 		if !silent {
 			for i, m := range batch {
-				if m.Kind == "query" && m.Args == "full" && (m.Method == "announce_peer" || m.Method == "put") && m.Token == "valid" {
+				if m.Kind == "query" && m.Args == "full" && (m.Method == "announce_peer" || m.Method == "put") && m.Token == "valid" && !blockedIP(m.Src.NetIP()) {
 					tokSeq++
 					tt := []byte(fmt.Sprintf("tk%d", tokSeq))
 					// from another port of the same IP: a token is bound to the IP only
@@ -334,10 +370,21 @@ func runC08(sc C08Sc, c *kit.Case) *kit.Violation {
 					c.Label("known-in-other-byte-form")
 				}
 			}
-			sv.S.AddNode(krpc.NodeInfo{ID: arr20(m.SenderID), Addr: krpc.NodeAddr{IP: append(net.IP(nil), ip...), Port: m.Src.Port}})
+			added := make(chan struct{})
+			ni := krpc.NodeInfo{ID: arr20(m.SenderID), Addr: krpc.NodeAddr{IP: append(net.IP(nil), ip...), Port: m.Src.Port}}
+			simnet.Go(func() { sv.S.AddNode(ni); close(added) })
+			select {
+			case <-added:
+			case <-time.After(10 * time.Second):
+				if ok, who := sv.C.AllBlocked(); !ok {
+					c.Inconclusive = "AddNode still running after 10 s with runnable goroutines: " + who
+					return nil
+				}
+				return kit.Violatef("C08:node-wedged", "AddNode does not return although every goroutine of the library is blocked (a lock was left held): later queries cannot be answered")
+			}
 		}
-		if !sv.barrier(c) {
-			return nil
+		if v := sv.barrierOrWedged(c, "C08", fmt.Sprintf("before batch %d", bi)); v != nil || c.Inconclusive != "" {
+			return v
 		}
 		// start the outbound queries whose transaction IDs the SameT messages will carry
 		var obCancels []context.CancelFunc
@@ -359,6 +406,28 @@ func runC08(sc C08Sc, c *kit.Case) *kit.Violation {
 		}
 		for i := range batch {
 			if !batch[i].SameT {
+				continue
+			}
+			if blockedIP(batch[i].Src.NetIP()) {
+				// the node's own query to a blocked address is refused before the socket: it fails, cleanly
+				res := make(chan dht.QueryResult, 1)
+				bdest := batch[i].Src.UDP()
+				simnet.Go(func() {
+					res <- sv.S.Query(context.Background(), dht.NewAddr(bdest), "ping", dht.QueryInput{NumTries: 1})
+				})
+				select {
+				case r := <-res:
+					if r.Err == nil {
+						return kit.Violatef("C08:reply-to-non-query", "a query of the node's own to the blocklisted address %v returned a reply", bdest)
+					}
+				case <-time.After(10 * time.Second):
+					if ok, who := sv.C.AllBlocked(); !ok {
+						c.Inconclusive = "a query to a blocked address still running after 10 s with runnable goroutines: " + who
+						return nil
+					}
+					return kit.Violatef("C08:node-wedged", "a query of the node's own to the blocklisted address %v does not return although every goroutine of the library is blocked (a lock was left held): later queries cannot be answered", bdest)
+				}
+				c.Label("own-query-to-blocked-address")
 				continue
 			}
 			w := make(chan string, 1)
@@ -396,9 +465,9 @@ func runC08(sc C08Sc, c *kit.Case) *kit.Violation {
 		for i, m := range batch {
 			sv.C.Inject(m.Src.UDP(), m.build(tokens[i]))
 		}
-		if !sv.barrier(c) {
+		if v := sv.barrierOrWedged(c, "C08", fmt.Sprintf("after batch %d", bi)); v != nil || c.Inconclusive != "" {
 			finishOutbound()
-			return nil
+			return v
 		}
 		judge := func() *kit.Violation {
 			outs := outsFrom(sv.C, mark)
@@ -419,6 +488,12 @@ func runC08(sc C08Sc, c *kit.Case) *kit.Violation {
 			}
 			for i, m := range batch {
 				got := perMsg[i]
+				if blockedIP(m.Src.NetIP()) {
+					if len(got) != 0 {
+						return kit.Violatef("C08:wrong-destination", "a datagram was sent to the blocklisted source %v: %s", m.Src, got[0].Describe())
+					}
+					continue
+				}
 				if m.Kind != "query" {
 					if len(got) != 0 {
 						return kit.Violatef("C08:reply-to-non-query", "a %s message from %v caused %d datagram(s): %s", m.Kind, m.Src, len(got), got[0].Describe())
